@@ -17,17 +17,10 @@ CODES = {1: "Add headers differ from model", 2: "Dump bytes differ from model", 
          7: "SPEC: result is not the reference splice"}
 
 def run(ctx, replay=None):
-    ctx.srcgen()
-    broken = ctx.srcgen_summary["broken_by_file"].get("C12_gen", [])
-    built, log = ctx.coq_build(TARGETS)
-    hyg = ctx.hygiene(["Base", "C12", "Generated"])
-    thms = ctx.theorems(PROPS)
-    proofs_ok = built.get("C12/Properties.vo", False) and not hyg
-    model_ok = built.get("C12/Run.vo", False)
-    ok, err = ctx.build_drv()
-    if not ok:
-        ctx.violation("C12:harness-build", "harness does not build against /repo: " + err[-400:], {"stderr": err[-2000:]}, False)
-        return ctx.finish("proof", {"obligations": len(thms), "discharged": 0, "checker_cmd": "make -C coq", "trusted_base": []}, [])
+    st = ctx.prepare(["C12_gen"], ["C12"], "C12.Run")
+    model_ok = st["model_ok"]
+    if not st["harness_ok"]:
+        return ctx.finish("proof", ctx.proof_coverage([], ["lib/binpatch"]), [])
     # ---- run the implementation
     if replay:
         rp = json.load(open(replay))
@@ -55,11 +48,6 @@ def run(ctx, replay=None):
             ctx.violation("C12:input-modified", "input modified although output path differs", {"cases": [c]})
     mism, ndomain, evaluated = [], 0, 0
     if model_ok:
-        okm, merr = ctx.build_model("C12.Run")
-        if not okm:
-            ctx.violation("C12:model-extract", "model extraction failed: " + merr[-300:], {"output": merr[-2000:]}, False)
-            model_ok = False
-    if model_ok:
         try:
             res = ctx.run_model([case_val(c) for c in cases])
             for c, (codes, dom) in zip(cases, res):
@@ -83,28 +71,17 @@ def run(ctx, replay=None):
         ctx.violation("C12:correspondence", "model and implementation disagree (%s) on %d cases; none violates the reference splice" %
                       ("; ".join(CODES[c] for c in cs), len(corr_fail)), {"cases": [byid[i]], "codes": cs,
                       "broken": "correspondence C12.Run.check_case"}, False)
-    if not proofs_ok or broken or not model_ok:
-        if not ctx.violations:
-            what = broken or hyg or [t for t, v in built.items() if not v]
-            ctx.violation("C12:proof", "proof obligations no longer check: %s" % what,
-                          {"broken": what, "coq_log_tail": ctx.coq["log_tail"][-1500:]}, False)
-    fp = ctx.fingerprints_changed(["lib/binpatch"])
-    if fp:
-        ctx.notes.append("fingerprints changed (not a violation): %s" % fp)
-    assum = ctx.assumptions(PROPS) if proofs_ok else ""
+    ctx.proof_verdict()
     kinds = {}
     for c in cases:
         kinds[c["kind"] + "/" + c["mode"]] = kinds.get(c["kind"] + "/" + c["mode"], 0) + 1
-    cov = {"obligations": len(thms), "discharged": len(thms) if proofs_ok else 0,
-           "checker_cmd": "make -C /verif/coq C12/Properties.vo (coqc 8.16.1, full .vo build)",
-           "trusted_base": ["Coq 8.16.1 kernel + vm_compute", "Print Assumptions: " + " | ".join(sorted(set(l.strip() for l in assum.splitlines() if l.strip())))[:600],
-                            "srcgen translator (constants, struct layouts, branch conditions of Add/Load/Apply/applyRewrite/canOverwrite)",
-                            "correspondence harness cmd/drv c12 (real binpatch.Add/Dump/Load/Apply on temp files)",
-                            "OS file semantics (WriteAt/Truncate/SameFile/Nlink) modelled as functions on byte lists"],
-           "theorems": thms,
+    cov = ctx.proof_coverage(["srcgen translator (constants, struct layouts, branch conditions of Add/Load/Apply/applyRewrite/canOverwrite)",
+                              "correspondence harness cmd/drv c12 (real binpatch.Add/Dump/Load/Apply on temp files)",
+                              "OS file semantics (WriteAt/Truncate/SameFile/Nlink) modelled as functions on byte lists"], ["lib/binpatch"])
+    cov.update({
            "evaluations": evaluated + len(big), "distinct_nontrivial": ndomain,
            "rule": "exhaustive 1-call and 2-call Add sequences on small files x {same,other,hardlink,absent} + random builder-like sequences + >4GiB header arithmetic; non-trivial = in the property's domain (disjoint in-bounds ranges, distinct offsets) as decided by C12.Run.in_domain",
            "samples": [dict((k, c[k]) for k in ("kind", "file", "calls", "mode", "status", "out")) for c in cases[100:103]],
            "exhaustive": False, "input_distribution": kinds, "truncation_sweeps": n_trunc,
-           "model_mismatches": len(mism), "srcgen_broken": broken, "fingerprints_changed": fp}
+           "model_mismatches": len(mism)})
     return ctx.finish("proof", cov, ["POSIX rename atomicity and file semantics", "sort.Sort instability excluded by distinct-offset domain"])
